@@ -551,3 +551,20 @@ _EXTRA3 = {
 }
 for _k, _t in _EXTRA3.items():
     PROPS[_k]["level_note"] = (PROPS[_k].get("level_note", "") + " " + _t).strip()
+
+# factory: a quarter to a third of the scenarios now come from the targeted settings / retiring-worker generator; more scenarios per quick run
+for _k in ("C13", "C14", "C15"):
+    for _r in PROPS[_k]["runs"]:
+        if _r["engine"] == "vt" and _r.get("build", "main") == "main":
+            _r["quick"] = 32000
+_EXTRA4 = {
+    "C13": ("A quarter of the scenarios use a targeted generator: worker-queued routers with small busy pools, UpdateSettings in the middle (discard kind / limit / mode, or only a new "
+            "discard handler), bursts behind busy workers, workers that retire by themselves (stop with a slow post_stop) while jobs keep arriving, and resizes. New clause "
+            "discard-to-stale-handler: once a handler installed at run time is in place (a barrier queued behind the update was answered) every discard is reported to it."),
+    "C14": "A quarter of the scenarios use the targeted settings / retiring-worker generator (same-key jobs arriving while their worker is in post_stop and not yet replaced).",
+    "C15": ("A third of the scenarios use the targeted settings / retiring-worker generator. New clause for worker-queued routers after a limit change: of the jobs dispatched since the "
+            "(processed) change at most limit+1 wait per live worker. Found and fixed F13 (jobs routed to a stopping, not yet replaced worker bypassed the limit)."),
+}
+for _k, _t in _EXTRA4.items():
+    PROPS[_k]["level_note"] = (PROPS[_k].get("level_note", "") + " " + _t).strip()
+FIX_COMMITS.append("9f411cc")
